@@ -22,7 +22,7 @@ RULE = ('trees: corpus and Annex A derivations (every generator alternative forc
 ASSUMPTIONS = ['the reflective traversal (vars(node), lists included, _token_map excluded) defines "every node stored in '
                'any attribute"; the root itself is not yielded (documented: children only)']
 BUDGET_S = {'quick': 50, 'thorough': 600}
-REQUIRED_HITS = ['walk', 'filter', 'extract', 'extract_no_match', 'interleaved_traversals']
+REQUIRED_HITS = ['walk', 'filter', 'extract', 'extract_no_match', 'interleaved_traversals', 'edit_of_another_tree']
 FLOOR = {'quick': 1500, 'thorough': 20000}
 
 
@@ -218,6 +218,36 @@ def check(ctx, text, with_comments, origin):
                          'filter(%s), filter(%s) and walk advanced alternately on one Walker yielded %d / %d / %d nodes, '
                          'each alone %d / %d / %d (%s)' % (n1, n2, len(got1), len(got2), len(got3), len(e1), len(e2),
                                                           len(ids), label)))
+    # a caller editing *another* tree (appending a statement to every child list it can get hold of there, as
+    # an AST transformation would) leaves this one as it was: its walk is still the walk of its own nodes
+    if not viol and (len(text) + nn) % 5 == 0:
+        try:
+            other, _ = work.run_impl('{} a; function f() {} for (;;) {}', with_comments)
+            extra, _ = work.run_impl('marker;', with_comments)
+            stmt = list(extra)[0]
+            edited = []
+            for n in list(Walker().walk(other)) + [other]:
+                ch = n.children()
+                if isinstance(ch, list):
+                    ch.append(stmt)
+                    edited.append(ch)
+            ctx.hit('edit_of_another_tree')
+            try:
+                again = list(w.walk(tree))
+            finally:
+                # (the edit is taken back, so that whatever it reached does not leak into the next case)
+                for ch in edited:
+                    while any(x is stmt for x in ch):
+                        del ch[[x is stmt for x in ch].index(True)]
+            if [id(n) for n in again] != ids:
+                viol.append(('C16:walk_changed_by_edit_of_another_tree',
+                             'after statements were appended to the child lists of a different tree, the walk of this '
+                             '(untouched) tree yields %d nodes, before %d (%s)' % (len(again), len(ids), label)))
+            else:
+                viol.extend(audit(tree, again, again, label + ', after an edit of another tree'))
+        except RecursionError:
+            viol.append(('C16:walk_changed_by_edit_of_another_tree',
+                         'after an edit of a different tree the walk of this one does not terminate (%s)' % label))
     seen = set()
     for mech, detail in viol:
         if mech in seen:
